@@ -1786,6 +1786,11 @@ class Interp(object):
                            'under noDeps a module that was requested (or produced by fetching a requested name) is '
                            'excluded', P, st)
         # borrowing
+        if st.get('f:borok'):
+            self.rep.check('borrow-status', site + '/supplied', word in ('borrowed', 'failed', 'unprocessed') or
+                           (word == 'untouched' and bool(st.get('f:fresh'))),
+                           'a borrower supplied this module (so it no longer counts as failed) but it ends %s: the '
+                           'borrowed text is dropped and nothing stands in for the module' % word, P, st)
         if word == 'borrowed':
             self.rep.check('borrow-status', site, not in_failed,
                            'a module is reported borrowed although it is still in the FAILED map', P, st)
